@@ -23,11 +23,8 @@ Proof. apply tokb_tokp, tokp_lit_text. Qed.
 Lemma number_tok n : tokb (dec n) = true.
 Proof. apply tokb_tokp, tokp_dec. Qed.
 
-Lemma flags_value_tok flags : classify_flags flags = None -> tokb (LP :: flags ++ [RP]) = true.
-Proof.
-  unfold classify_flags. destruct (forallb flag_byte flags) eqn:E; [intros _|discriminate].
-  apply tokb_tokp, tokp_paren. exact (inl_flags _ 0 E).
-Qed.
+Lemma flags_value_tok flags : flags_plain flags = true -> tokb (LP :: flags ++ [RP]) = true.
+Proof. intros E. apply tokb_tokp, tokp_paren. exact (inl_flags _ 0 E). Qed.
 
 Lemma list_line_ok kw attrs name :
   forallb plain_byte kw = true -> forallb flag_byte attrs = true -> clean name = true ->
@@ -87,10 +84,10 @@ Lemma new_name_lines_examples :
   /\ wf_stream (send (status_line (S_ "a""b") [(S_ "MESSAGES", 0)])) = true.
 Proof. vm_compute. auto. Qed.
 
-Lemma refuted_flag_atom :
-  exists flags, classify_flags flags = Some flag_atom
-    /\ wf_stream (send (fetch_line 1 [Inline (S_ "FLAGS") (LP :: flags ++ [RP])])) = false.
-Proof. exists (S_ "x)y"). vm_compute. auto. Qed.
+(** regression (fix e64d29e): the line raven sent when x)y could be stored as a flag *)
+Lemma old_flag_atom_malformed :
+  wf_stream (send (S_ "* 1 FETCH (FLAGS (x)y))")) = false /\ flags_plain (S_ "x)y") = false.
+Proof. vm_compute. auto. Qed.
 
 (** ---- requested items that are not answered under their own name ---- *)
 Definition w_env : fenv :=
